@@ -238,10 +238,44 @@ pub fn stream_preludes(_sc: &StreamScenario) -> Vec<StreamScenario> {
                 explicit_gate: true,
                 flushes: vec![],
                 buffered: false,
+                gate_calls: vec![],
+                trace: false,
                 inbound: mode.pong().to_vec(),
                 reads: vec![],
                 writes: vec![],
                 ops: vec![AppOp::Drain { max: 3 }],
+            });
+            // a connection abandoned with received-but-unconsumed bytes: two whole frames of
+            // which only the first is read, and a frame cut short by the end of the stream
+            let mut two = crate::gen::tiny(mode, 0x31, 3);
+            two.extend_from_slice(&crate::gen::tiny(mode, 0x32, 3));
+            v.push(StreamScenario {
+                imp,
+                mode,
+                verify_version: false,
+                explicit_gate: true,
+                flushes: vec![],
+                buffered: false,
+                gate_calls: vec![],
+                trace: false,
+                inbound: two,
+                reads: vec![],
+                writes: vec![],
+                ops: vec![AppOp::Read],
+            });
+            v.push(StreamScenario {
+                imp,
+                mode,
+                verify_version: false,
+                explicit_gate: true,
+                flushes: vec![],
+                buffered: false,
+                gate_calls: vec![],
+                trace: false,
+                inbound: vec![mode.size_byte(8), 4, 1],
+                reads: vec![],
+                writes: vec![],
+                ops: vec![AppOp::Read],
             });
         }
     }
